@@ -163,7 +163,8 @@ def evaluate__minus_operator(self: XPathToken, context: ta.ContextType = None) \
 @method('+')
 @method('-')
 def nud__plus_minus_operators(self: XPathToken) -> XPathToken:
-    self[:] = self.parser.expression(rbp=70),
+    # XPath 1.0: UnaryExpr ::= UnionExpr | '-' UnaryExpr, the union operator binds tighter
+    self[:] = self.parser.expression(rbp=70 if self.parser.version != '1.0' else 47),
     return self
 
 
